@@ -102,6 +102,9 @@ type SPSpec struct {
 	EncKeyFirst string `json:"enc_key_first,omitempty"`
 	RawMetadata string `json:"raw_metadata,omitempty"` // used verbatim when set
 	LoginBase   string `json:"login_base,omitempty"`
+	// WantAssertionsSigned: the SPSSODescriptor attribute ("" = absent | true | false | 1 | 0). What the provider wishes for
+	// the SSO profile changes nothing about what the statements promise.
+	WantAssertionsSigned string `json:"want_assertions_signed,omitempty"`
 }
 
 type CustomAttr struct {
@@ -176,6 +179,9 @@ func (sp SPSpec) MetadataXML() []byte {
 	sso := xt.NewElem("md", NSMD, "SPSSODescriptor")
 	if sp.AuthnRequestsSigned != Absent {
 		sso.SetAttr("AuthnRequestsSigned", sp.AuthnRequestsSigned)
+	}
+	if sp.WantAssertionsSigned != "" {
+		sso.SetAttr("WantAssertionsSigned", sp.WantAssertionsSigned)
 	}
 	sso.SetAttr("protocolSupportEnumeration", NSSAMLP)
 	ed.AddText("\n  ").Add(sso)
